@@ -374,7 +374,7 @@ func (m *model) block(h int64, t time.Time, ops []op, amounts []int64, res []har
 			m.count("antecedent_verdict_guilty")
 			m.tags["verdict-guilty"] = true
 			if !permittedG {
-				m.violate(fmt.Sprintf("C19|verdict-without-share|op=%s|verdict=guilty|%s|world=%s", name, staleFact, cls),
+				m.violate(fmt.Sprintf("C19|verdict-without-share|op=end-block-tally|verdict=guilty|%s", staleFact),
 					fmt.Sprintf("height %d: request %s decided GUILTY: %s", h, id, facts))
 			} else if !requiredG {
 				m.count("tolerated_verdict_in_rounding_band")
@@ -387,7 +387,7 @@ func (m *model) block(h int64, t time.Time, ops []op, amounts []int64, res []har
 			m.count("antecedent_verdict_innocent")
 			m.tags["verdict-innocent"] = true
 			if !permittedI {
-				m.violate(fmt.Sprintf("C19|verdict-without-share|op=%s|verdict=innocent|%s|world=%s", name, staleFact, cls),
+				m.violate(fmt.Sprintf("C19|verdict-without-share|op=end-block-tally|verdict=innocent|%s", staleFact),
 					fmt.Sprintf("height %d: request %s decided INNOCENT: %s", h, id, facts))
 			} else if !requiredI {
 				m.count("tolerated_verdict_in_rounding_band")
@@ -395,7 +395,7 @@ func (m *model) block(h int64, t time.Time, ops []op, amounts []int64, res []har
 			delete(m.open, id)
 		default:
 			if requiredG || requiredI {
-				m.violate(fmt.Sprintf("C19|verdict-missing|op=%s|due=%s|%s|world=%s", name, map[bool]string{true: "guilty", false: "innocent"}[requiredG], staleFact, cls),
+				m.violate(fmt.Sprintf("C19|verdict-missing|op=end-block-tally|due=%s|%s", map[bool]string{true: "guilty", false: "innocent"}[requiredG], staleFact),
 					fmt.Sprintf("height %d: request %s still open: %s", h, id, facts))
 			} else if permittedG || permittedI {
 				m.count("tolerated_no_verdict_in_rounding_band")
